@@ -383,7 +383,7 @@ func init() {
 					if io, bad := inconclusiveIf(res); bad {
 						return io
 					}
-					if res.Verdict != engine.Accept {
+					if !res.AcceptedHonestly() {
 						return fw.Violate("gate_eval_failed:"+spec.Type, fmt.Sprintf("%s: %s %s", trunc(id, 80), resStr(res), res.Msg))
 					}
 					if len(got) != len(want) {
@@ -504,7 +504,7 @@ func init() {
 						o.Inc("too_few_constraint_slots_refused")
 						return o
 					}
-					if res.Verdict != engine.Accept {
+					if !res.AcceptedHonestly() {
 						return fw.Violate("evaluate_gate_constraints_failed", fmt.Sprintf("gates %v groups %v: %s %s", specTypes(specs), groups, resStr(res), res.Msg))
 					}
 					if len(outs) != len(want) {
